@@ -20,6 +20,8 @@ pub enum ROp {
     /// create an iterator and take up to j items (255 = drain)
     Iter(u8),
     Nth(u8),
+    /// read_nth_shape_as::<another type>(i): a random access that fails with a type mismatch
+    NthWrong(u8),
     Seek(u8),
     Count,
 }
@@ -202,6 +204,11 @@ fn apply(r: &mut AnyReader, op: ROp, n: usize) -> Result<Obs, PanicInfo> {
         }
         (AnyReader::Shp(r), ROp::Nth(i)) => Obs::Nth(r.read_nth_shape(i as usize).map(|x| x.map(|s| capture(&s)).map_err(|e| classify(&e)))),
         (AnyReader::Full(_), ROp::Nth(_)) => Obs::Unit(Ok(())),
+        (AnyReader::Shp(r), ROp::NthWrong(i)) => {
+            // the file's type is never Multipatch in this family
+            Obs::Nth(r.read_nth_shape_as::<shapefile::Multipatch>(i as usize).map(|x| x.map(|s| capture(&shapefile::Shape::from(s))).map_err(|e| classify(&e))))
+        }
+        (AnyReader::Full(_), ROp::NthWrong(_)) => Obs::Unit(Ok(())),
         (AnyReader::Shp(r), ROp::Seek(k)) => Obs::Unit(r.seek(k as usize).map_err(|e| classify(&e))),
         (AnyReader::Full(r), ROp::Seek(k)) => Obs::Unit(r.seek(k as usize).map_err(|e| classify(&e))),
         (AnyReader::Shp(r), ROp::Count) => Obs::Count(r.shape_count().map_err(|e| classify(&e))),
@@ -214,6 +221,7 @@ fn op_name(op: ROp) -> String {
         ROp::Iter(255) => "iter-all".into(),
         ROp::Iter(j) => format!("iter-{}", j),
         ROp::Nth(i) => format!("nth({})", i),
+        ROp::NthWrong(i) => format!("nth-as-other-type({})", i),
         ROp::Seek(k) => format!("seek({})", k),
         ROp::Count => "count".into(),
     }
@@ -228,6 +236,7 @@ fn history_site(ops: &[ROp], upto: usize) -> String {
     let k = |o: &ROp| match o {
         ROp::Iter(_) => "iter",
         ROp::Nth(_) => "nth",
+        ROp::NthWrong(_) => "nthwrong",
         ROp::Seek(_) => "seek",
         ROp::Count => "count",
     };
@@ -284,7 +293,25 @@ pub fn run_history(scn: &HrScn, f: &ValidFile, dbf: &[u8], ctx: &mut Ctx) {
                     ctx.fail("C15", "count-constant", site, format!("history {} ({:?}): shape_count() at call {} = {:?}, expected {:?}", hist, scn.kind, oi, c, want));
                 }
             }
-            (ROp::Nth(_), Obs::Unit(_)) => {} // not available on the complete reader
+            (ROp::Nth(_), Obs::Unit(_)) | (ROp::NthWrong(_), Obs::Unit(_)) => {} // not available on the complete reader
+            (ROp::NthWrong(i), Obs::Nth(x)) => {
+                let i = *i as usize;
+                let want = if !has_index {
+                    Some(Err(RErr::MissingIndex))
+                } else if i >= n {
+                    None
+                } else {
+                    Some(Err(RErr::Mismatch { requested: 31, actual: scn.ty }))
+                };
+                if x != want {
+                    ctx.fail("C15", "random-access-as-other-type", site, format!("history {} ({:?}): read_nth_shape_as::<Multipatch>({}) on a {} file = {:?}", hist, scn.kind, i, type_name(scn.ty), x.as_ref().map(item_short)));
+                }
+                if has_index && i < n {
+                    // C15 defines the state after a successful random access only: after a failed
+                    // one an iteration may start from the first record or from where the reader was
+                    cand.insert(0);
+                }
+            }
             (ROp::Nth(i), Obs::Nth(x)) => {
                 let i = *i as usize;
                 if !has_index {
@@ -391,6 +418,8 @@ pub fn alphabet(n: usize) -> Vec<ROp> {
     for i in 0..=n {
         a.push(ROp::Nth(i as u8));
     }
+    a.push(ROp::NthWrong(0));
+    a.push(ROp::NthWrong(1));
     for k in 0..=n {
         a.push(ROp::Seek(k as u8));
     }
@@ -444,4 +473,4 @@ pub fn sweep_unit(unit: u64, max_len: usize, ctx: &mut Ctx, ctl: &mut UnitCtl) {
     }
 }
 
-pub const SWEEP_UNITS: u64 = 13 * 10;
+pub const SWEEP_UNITS: u64 = 15 * 10;
